@@ -9,7 +9,8 @@ THEOREMS = ['DG.rlist_append_inv', 'DG.rlist_setItem_inv', 'DG.rlist_delItem_inv
             'DG.history_refines', 'DG.history_errors', 'DG.dependencies_spec', 'DG.c16_pinned_refuted', 'DG.multi_history_refines', 'DG.merge_refines', 'DG.copy_refines', 'DG.items_spec',
             'DG.topo_sound', 'DG.topo_acyclic', 'DG.topo_cyclic', 'DG.topo_history', 'DG.topologicalSort_sound',
             'DG.topologicalSort_total', 'DG.visit_sound', 'DG.visit_total', 'DG.invert_refines', 'DG.mkGraph_refines',
-            'DG.dependees_reads', 'DG.initial_terminal_spec', 'DG.graft_refines_spec', 'DG.graft_refines', 'DG.graft_nodes']
+            'DG.dependees_reads', 'DG.initial_terminal_spec', 'DG.graft_refines_spec', 'DG.graft_refines', 'DG.graft_nodes',
+            'DG.graft_preserves_order', 'DG.graft_order_sound', 'DG.graft_order_complete', 'DG.exists_init_term']
 BUDGET = {'quick': 1200, 'thorough': 30000}
 TIME_LIMIT = {'quick': 50, 'thorough': 700}
 RULE = ('edit histories of 1-30 operations over up to 6 graph variables (SSA: copy/invert/+ create a new variable) '
